@@ -742,6 +742,9 @@ func (interp *Interpreter) ast(f ast.Node) (string, *node, error) {
 				kind = typeDecl
 			case token.VAR:
 				kind = varDecl
+				if anc.node.kind == fileStmt {
+					a.Specs = splitVarSpecs(a.Specs)
+				}
 			}
 			st.push(addChild(&root, anc, pos, kind, aNop), nod)
 
@@ -966,6 +969,24 @@ func (s *nodestack) top() astNode {
 }
 
 // dup returns a duplicated node subtree.
+// splitVarSpecs returns package level variable specs where 'var a, b = x, y'
+// is expanded to 'var a = x; var b = y', as each variable is initialized on
+// its own, in dependency order.
+func splitVarSpecs(specs []ast.Spec) []ast.Spec {
+	res := make([]ast.Spec, 0, len(specs))
+	for _, spec := range specs {
+		vs, ok := spec.(*ast.ValueSpec)
+		if !ok || len(vs.Names) < 2 || len(vs.Values) != len(vs.Names) {
+			res = append(res, spec)
+			continue
+		}
+		for i, name := range vs.Names {
+			res = append(res, &ast.ValueSpec{Names: []*ast.Ident{name}, Type: vs.Type, Values: []ast.Expr{vs.Values[i]}})
+		}
+	}
+	return res
+}
+
 func (interp *Interpreter) dup(nod, anc *node) *node {
 	nindex := atomic.AddInt64(&interp.nindex, 1)
 	n := *nod
